@@ -461,6 +461,8 @@ func (ex *Exec) vfCall(caller *Frame, fn *ssa.Function, name string, args []Valu
 		o := ex.newObject(types.Typ[types.Uint8], n, "vfGuardAlloc")
 		nt := ts.Const(64, uint64(n))
 		return Slice{obj: o, off: ts.Const(64, 0), len: nt, cap: nt, es: 1}
+	case "vfCallDepthMax":
+		return ts.Const(64, uint64(ex.maxDepthSeen))
 	case "vfUnwind":
 		ex.unwind = int32(ex.concInt(args[0]))
 		return nil
